@@ -6,7 +6,7 @@ of Entity._parse_response whose shape *is* the decision table.
 """
 import ast
 
-from ..match import facts, Q
+from ..match import facts, Q, extra_guards
 from ..srcmodel import attr_chain, call_name, unparse, norm_text, walk_no_nested
 from ..cfg import cfg_of, handler_names
 from ..dataflow import Origins
@@ -196,9 +196,9 @@ def r2_missing_signature_raises(run):
     if not hits:
         run.violated("R2", key, "no raise on the unsigned-response branch", fi.loc())
     for rn, gs in hits:
-        extra = gs - {Q("response.signature", False),
-                      Q("require_response_signature", True),
-                      Q("response", True)}
+        extra = extra_guards(cfg, rn.id, ("response.signature", False),
+                             ("require_response_signature", True),
+                             ("response", True))
         run.check(Q("require_response_signature", True) in gs and not extra and
                   c01.raised_class(rn.ast) == "SignatureError", "R2", key,
                   "raise SignatureError iff unsigned and "
